@@ -6,15 +6,24 @@ that succeeds on one destination does the same thing on all of them. -/
 namespace Tally.UdpMultiLemmas
 open Tally Tally.UdpObs Tally.Udp Tally.UdpMulti Tally.UdpLemmas Tally.Spec.C15
 
-theorem write_rep (max : Nat) (s s' : T) (b : Bytes) (r : Res) (h : accept max s b = (s', r)) (he : r.err = .nil) :
-    ∀ (j n : Nat), UdpMulti.write max (List.replicate j s) b n
-      = (List.replicate j s', (if j = 0 then n else if r.n > n then r.n else n), .nil)
-  | 0, n => by simp [UdpMulti.write]
-  | j + 1, n => by
-    simp only [List.replicate_succ, UdpMulti.write, h, he]
-    rw [write_rep max s s' b r h he j]
-    simp only [ne_eq, not_true_eq_false, if_false]
-    by_cases hj : j = 0 <;> simp [hj] <;> split <;> (try split) <;> omega
+theorem write_rep (max : Nat) (s s' : T) (b : Bytes) (r : Res) (h : accept max s b = (s', r)) :
+    ∀ (j n : Nat) (fe : Err), UdpMulti.write max (List.replicate j s) b n fe
+      = (List.replicate j s',
+         (if j = 0 ∨ r.err ≠ .nil then n else if fe = .nil ∧ r.n > n then r.n else n),
+         (if j = 0 ∨ r.err = .nil then fe else if fe = .nil then r.err else fe))
+  | 0, n, fe => by simp [UdpMulti.write]
+  | j + 1, n, fe => by
+    simp only [List.replicate_succ, UdpMulti.write, h]
+    by_cases he : r.err = .nil
+    · simp only [he, ne_eq, not_true_eq_false, if_false]
+      rw [write_rep max s s' b r h j]
+      by_cases hj : j = 0 <;> simp [hj, he]
+      by_cases hf : fe = .nil <;> simp [hf]
+      split <;> (try split) <;> omega
+    · simp only [ne_eq, he, not_false_eq_true, if_true]
+      rw [write_rep max s s' b r h j]
+      by_cases hj : j = 0 <;> simp [hj, he]
+      by_cases hf : fe = .nil <;> simp [hf, he]
 
 theorem headD_ok (socks : List Sock) (h : socks.all (· = .ok) = true) : socks.headD .ok = .ok := by
   cases socks with
@@ -26,14 +35,16 @@ theorem tail_ok (socks : List Sock) (h : socks.all (· = .ok) = true) : socks.ta
   | nil => rfl
   | cons x xs => simp at h; simp; exact h.2
 
-theorem flush_rep (s s' : T) (r : Res) (h : Udp.flush s .ok = (s', r)) (he : r.err = .nil) :
-    ∀ (j : Nat) (socks : List Sock), socks.all (· = .ok) = true →
-      UdpMulti.flush (List.replicate j s) socks = (List.replicate j s', .nil, List.replicate j r.recv)
-  | 0, _, _ => by simp [UdpMulti.flush]
-  | j + 1, socks, hs => by
-    simp only [List.replicate_succ, UdpMulti.flush, headD_ok socks hs, h, he]
-    rw [flush_rep s s' r h he j socks.tail (tail_ok socks hs)]
-    simp
+theorem flush_rep (s s' : T) (r : Res) (h : Udp.flush s .ok = (s', r)) :
+    ∀ (j : Nat) (socks : List Sock) (fe : Err), socks.all (· = .ok) = true →
+      UdpMulti.flush (List.replicate j s) socks fe
+        = (List.replicate j s', (if j = 0 then fe else if fe = .nil then r.err else fe), List.replicate j r.recv)
+  | 0, _, _, _ => by simp [UdpMulti.flush]
+  | j + 1, socks, fe, hs => by
+    simp only [List.replicate_succ, UdpMulti.flush, headD_ok socks hs, h]
+    rw [flush_rep s s' r h j socks.tail _ (tail_ok socks hs)]
+    by_cases hj : j = 0 <;> simp [hj]
+    by_cases hf : fe = .nil <;> simp [hf]
 
 theorem headD_true (oks : List Bool) (h : oks.all (· = true) = true) : oks.headD true = true := by
   cases oks with
@@ -54,40 +65,41 @@ theorem close_rep (s s' : T) (r : Res) (h : Udp.close s true = (s', r)) (he : r.
     rw [close_rep s s' r h he j oks.tail (tail_true oks hs)]
     simp
 
-/-- a quiet call that succeeds on one destination: every one of `k ≥ 1` identical destinations
-performs it, with the same result -/
-theorem step_rep (max k : Nat) (hk : 0 < k) (s : T) (op : MOp) (hq : op.quiet = true)
-    (he : (Udp.step max s op.single).2.err = .nil) :
+/-- a quiet call — whether it succeeds or is refused — does the same thing on every one of
+`k ≥ 1` identical destinations, and the caller sees that one result -/
+theorem step_rep (max k : Nat) (hk : 0 < k) (s : T) (op : MOp) (hq : op.quiet = true) :
     UdpMulti.step max (List.replicate k s) op
       = (List.replicate k (Udp.step max s op.single).1,
-         { n := (Udp.step max s op.single).2.n, err := .nil, recv := List.replicate k (Udp.step max s op.single).2.recv }) := by
+         { n := (Udp.step max s op.single).2.n, err := (Udp.step max s op.single).2.err,
+           recv := List.replicate k (Udp.step max s op.single).2.recv }) := by
+  have hk' : k ≠ 0 := by omega
   cases op with
   | write b =>
-    simp only [MOp.single, Udp.step] at he ⊢
-    have := write_rep max s (accept max s b).1 b (accept max s b).2 rfl he k 0
+    simp only [MOp.single, Udp.step]
+    have := write_rep max s (accept max s b).1 b (accept max s b).2 rfl k 0 .nil
     simp only [UdpMulti.step, this]
-    have hk' : k ≠ 0 := by omega
-    have hrecv : (accept max s b).2.recv = [] := by
-      unfold accept; split <;> (try split) <;> rfl
-    simp [hk', hrecv]
-    omega
+    have hacc : (accept max s b).2.recv = [] ∧ ((accept max s b).2.err ≠ .nil → (accept max s b).2.n = 0) := by
+      unfold accept; split <;> (try split) <;> simp
+    by_cases he : (accept max s b).2.err = .nil
+    · simp [hk', hacc.1, he]; omega
+    · simp [hk', hacc.1, he, hacc.2 he]
   | flush socks =>
-    simp only [MOp.single, Udp.step] at he ⊢
-    have := flush_rep s (Udp.flush s .ok).1 (Udp.flush s .ok).2 rfl he k socks (by simpa [MOp.quiet] using hq)
+    simp only [MOp.single, Udp.step]
+    have := flush_rep s (Udp.flush s .ok).1 (Udp.flush s .ok).2 rfl k socks .nil (by simpa [MOp.quiet] using hq)
     simp only [UdpMulti.step, this]
     have hn : (Udp.flush s .ok).2.n = 0 := by
       unfold Udp.flush; split <;> (try split) <;> rfl
-    simp [hn]
+    simp [hn, hk']
   | close oks =>
-    simp only [MOp.single, Udp.step] at he ⊢
+    simp only [MOp.single, Udp.step]
+    have he : (Udp.close s true).2.err = .nil := by unfold Udp.close; split <;> simp
     have := close_rep s (Udp.close s true).1 (Udp.close s true).2 rfl he k oks (by simpa [MOp.quiet] using hq)
     simp only [UdpMulti.step, this]
     have hn : (Udp.close s true).2.n = 0 ∧ (Udp.close s true).2.recv = [] := by
       unfold Udp.close; split <;> simp
-    simp [hn.1, hn.2]
+    simp [hn.1, hn.2, he]
   | isOpen =>
     simp only [MOp.single, Udp.step, UdpMulti.step, UdpMulti.isOpen]
-    have hk' : k ≠ 0 := by omega
     cases hc : s.closed <;> simp [hk', hc]
 
 theorem envs_quiet (k : Nat) (op : MOp) (hq : op.quiet = true) : ∀ x ∈ op.envs k, x = Env.ok := by
@@ -146,55 +158,121 @@ theorem allEqual_rep (k : Nat) (x : List Bytes) : allEqual (List.replicate k x) 
   | succ k => simp [List.replicate_succ, allEqual]
 
 /-- fan-out, from any pair of states related by the invariant -/
-theorem fanout (max k : Nat) (hk : 0 < k) : ∀ (mops : List MOp) (s : T) (st : St), Inv max s st →
+theorem fanout (max k : Nat) (hk : 0 < k) : ∀ (mops : List MOp) (s : T) (st : St) (q : Bool), Inv max s st →
     (∀ op ∈ mops, op.quiet = true) →
-    (∀ r ∈ (run max s (mops.map MOp.single)).2, r.err = .nil) →
     (∀ d, d < k → (UdpMulti.trace max (List.replicate k s) mops).map (MEv.proj d) = Udp.trace max s (mops.map MOp.single))
-    ∧ checkMultiFrom max { dests := List.replicate k st, faulted := false, quiet := true }
+    ∧ checkMultiFrom max { dests := List.replicate k st, faulted := false, quiet := q }
         (UdpMulti.trace max (List.replicate k s) mops) = none
   | [], _, _, _, _, _ => ⟨fun _ _ => rfl, rfl⟩
-  | op :: mops, s, st, hinv, hq, hne => by
+  | op :: mops, s, st, q, hinv, hq => by
     have hq0 : op.quiet = true := hq op (List.mem_cons_self ..)
-    have he : (Udp.step max s op.single).2.err = .nil := by
-      apply hne
-      simp [run_cons]
-    have hstep := step_rep max k hk s op hq0 he
+    have hstep := step_rep max k hk s op hq0
     have ⟨hck, hinv'⟩ := step_ok max s st op.single hinv
-    have ih := fanout max k hk mops (Udp.step max s op.single).1 _ hinv'
+    generalize hr : (Udp.step max s op.single).2 = r at hstep hck hinv'
+    have hproj : ∀ d, d < k → (toMEv k op { n := r.n, err := r.err, recv := List.replicate k r.recv }).proj d
+        = toEv op.single r := fun d hd => proj_rep k d hd op hq0 r
+    have henvs : (toMEv k op { n := r.n, err := r.err, recv := List.replicate k r.recv }).envs.any (· ≠ Env.ok) = false := by
+      simp only [toMEv, List.any_eq_false]
+      intro x hx
+      simp [envs_quiet k op hq0 x hx]
+    have ih := fanout max k hk mops (Udp.step max s op.single).1 (next st (toEv op.single r))
+      (q && !false && decide (r.err = .nil)) hinv'
       (fun o ho => hq o (List.mem_cons_of_mem _ ho))
-      (fun r hr => hne r (by simp only [List.map_cons, run_cons]; exact List.mem_cons_of_mem _ hr))
-    have hres : ({ n := (Udp.step max s op.single).2.n, err := Err.nil, recv := List.replicate k (Udp.step max s op.single).2.recv } : MRes)
-        = { n := (Udp.step max s op.single).2.n, err := (Udp.step max s op.single).2.err, recv := List.replicate k (Udp.step max s op.single).2.recv } := by
-      rw [he]
-    have hproj : ∀ d, d < k → (toMEv k op { n := (Udp.step max s op.single).2.n, err := Err.nil, recv := List.replicate k (Udp.step max s op.single).2.recv }).proj d
-        = toEv op.single (Udp.step max s op.single).2 := by
-      intro d hd
-      rw [hres]
-      exact proj_rep k d hd op hq0 _
     constructor
     · intro d hd
-      simp only [UdpMulti.trace, hstep, List.length_replicate, List.map_cons, trace_cons, hproj d hd]
+      simp only [UdpMulti.trace, hstep, List.length_replicate, List.map_cons, trace_cons, hproj d hd, hr]
       rw [ih.1 d hd]
     · simp only [UdpMulti.trace, hstep, List.length_replicate, checkMultiFrom]
-      have henvs : (toMEv k op { n := (Udp.step max s op.single).2.n, err := Err.nil, recv := List.replicate k (Udp.step max s op.single).2.recv }).envs.any (· ≠ Env.ok) = false := by
-        simp only [toMEv, List.any_eq_false]
-        intro x hx
-        simp [envs_quiet k op hq0 x hx]
-      have hck' : checkMEv max { dests := List.replicate k st, faulted := false, quiet := true }
-          (toMEv k op { n := (Udp.step max s op.single).2.n, err := Err.nil, recv := List.replicate k (Udp.step max s op.single).2.recv }) = none := by
+      have hck' : checkMEv max { dests := List.replicate k st, faulted := false, quiet := q }
+          (toMEv k op { n := r.n, err := r.err, recv := List.replicate k r.recv }) = none := by
         unfold checkMEv
         simp only [henvs, Bool.or_false]
         simp only [toMEv, List.length_replicate, ne_eq, not_true_eq_false, if_false, allEqual_rep]
         simp only [Bool.not_true, Bool.and_false, Bool.false_eq_true, if_false]
         exact checkDests_rep max _ _ st k hproj hck k 0 (by omega)
-      have hnx : nextM { dests := List.replicate k st, faulted := false, quiet := true }
-          (toMEv k op { n := (Udp.step max s op.single).2.n, err := Err.nil, recv := List.replicate k (Udp.step max s op.single).2.recv })
-          = { dests := List.replicate k (next st (toEv op.single (Udp.step max s op.single).2)), faulted := false, quiet := true } := by
+      have hnx : nextM { dests := List.replicate k st, faulted := false, quiet := q }
+          (toMEv k op { n := r.n, err := r.err, recv := List.replicate k r.recv })
+          = { dests := List.replicate k (next st (toEv op.single r)), faulted := false,
+              quiet := (q && !false && decide (r.err = .nil)) } := by
         unfold nextM
         simp only [henvs, Bool.or_false]
         rw [nextDests_rep _ _ st k hproj k 0 (by omega)]
         simp [toMEv]
+        rfl
       rw [hck', hnx]
       exact ih.2
+
+/-! ### every destination sees every write and every flush, whatever fails -/
+
+theorem write_at (max : Nat) (b : Bytes) : ∀ (m : MT) (n : Nat) (fe : Err) (d : Nat),
+    (UdpMulti.write max m b n fe).1[d]? = m[d]?.map (fun t => (accept max t b).1)
+  | [], _, _, _ => by simp [UdpMulti.write]
+  | t :: ts, n, fe, 0 => by simp [UdpMulti.write]
+  | t :: ts, n, fe, d + 1 => by
+    simp only [UdpMulti.write, List.getElem?_cons_succ]
+    split <;> exact write_at max b ts _ _ d
+
+theorem flush_at : ∀ (m : MT) (socks : List Sock) (fe : Err) (d : Nat),
+    (UdpMulti.flush m socks fe).1[d]? = m[d]?.map (fun t => (Udp.flush t (socks.getD d .ok)).1)
+    ∧ (UdpMulti.flush m socks fe).2.2[d]? = m[d]?.map (fun t => (Udp.flush t (socks.getD d .ok)).2.recv)
+  | [], _, _, _ => by simp [UdpMulti.flush]
+  | t :: ts, socks, fe, 0 => by cases socks <;> simp [UdpMulti.flush]
+  | t :: ts, socks, fe, d + 1 => by
+    have ih := flush_at ts socks.tail (if fe = .nil then (Udp.flush t (socks.headD .ok)).2.err else fe) d
+    have hs : socks.tail.getD d .ok = socks.getD (d + 1) .ok := by cases socks <;> simp
+    simp only [UdpMulti.flush, List.getElem?_cons_succ]
+    rw [← hs]
+    exact ih
+
+theorem close_at : ∀ (m : MT) (oks : List Bool) (d : Nat), oks.all (· = true) = true →
+    (UdpMulti.close m oks).1[d]? = m[d]?.map (fun t => (Udp.close t true).1)
+  | [], _, _, _ => by simp [UdpMulti.close]
+  | t :: ts, oks, d, h => by
+    have he : (Udp.close t true).2.err = .nil := by unfold Udp.close; split <;> simp
+    simp only [UdpMulti.close, headD_true oks h, he, ne_eq, not_true_eq_false, if_false]
+    cases d with
+    | zero => simp
+    | succ d => simpa using close_at ts oks.tail d (tail_true oks h)
+
+theorem getD_true (oks : List Bool) (h : oks.all (· = true) = true) (d : Nat) : oks.getD d true = true := by
+  simp only [List.all_eq_true, decide_eq_true_eq] at h
+  rw [List.getD_eq_getElem?_getD]
+  cases hget : oks[d]? with
+  | none => rfl
+  | some v => exact h v (List.mem_of_getElem? hget)
+
+/-- one call on the multi transport is, at destination `d`, that call on destination `d`'s own
+transport with destination `d`'s own socket: state and arriving datagrams -/
+theorem step_at (max : Nat) (m : MT) (op : MOp) (d : Nat) (t : T) (ht : m[d]? = some t) (hc : op.closeOk = true) :
+    (UdpMulti.step max m op).1[d]? = some (Udp.step max t (op.at d)).1
+    ∧ (UdpMulti.step max m op).2.recv[d]?.getD [] = (Udp.step max t (op.at d)).2.recv := by
+  cases op with
+  | write b =>
+    have hrecv : (accept max t b).2.recv = [] := by unfold accept; split <;> (try split) <;> rfl
+    simp [UdpMulti.step, MOp.at, Udp.step, write_at, ht, hrecv]
+  | flush socks =>
+    have := flush_at m socks .nil d
+    simp [UdpMulti.step, MOp.at, Udp.step, this.1, this.2, ht]
+  | close oks =>
+    have hq : oks.all (· = true) = true := by simpa [MOp.closeOk] using hc
+    have hrecv : (Udp.close t true).2.recv = [] := by unfold Udp.close; split <;> simp
+    have hg : oks[d]?.getD true = true := by
+      have := getD_true oks hq d
+      rwa [List.getD_eq_getElem?_getD] at this
+    simp [UdpMulti.step, MOp.at, Udp.step, close_at m oks d hq, ht, hg, hrecv]
+  | isOpen =>
+    simp [UdpMulti.step, MOp.at, Udp.step, ht]
+
+/-- over a whole history: destination `d` receives exactly what its own transport would have sent
+had it been given every write and every flush directly -/
+theorem every_destination (max : Nat) : ∀ (mops : List MOp) (m : MT) (d : Nat) (t : T), m[d]? = some t →
+    (∀ op ∈ mops, op.closeOk = true) →
+    (UdpMulti.trace max m mops).map (fun e => e.recv[d]?.getD []) = (Udp.trace max t (mops.map (MOp.at d))).map (·.recv)
+  | [], _, _, _, _, _ => rfl
+  | op :: mops, m, d, t, ht, hc => by
+    have hs := step_at max m op d t ht (hc op (List.mem_cons_self ..))
+    have ih := every_destination max mops (UdpMulti.step max m op).1 d _ hs.1 (fun o ho => hc o (List.mem_cons_of_mem _ ho))
+    simp only [UdpMulti.trace, List.map_cons, trace_cons, ih]
+    simp [toMEv, toEv, hs.2]
 
 end Tally.UdpMultiLemmas
